@@ -7,7 +7,9 @@ The destroy log of every call is part of the outputs that C12 proves equal to th
 * on insert: the pair that was stored under an equal key (`SM.find`), nothing otherwise;
 * on remove: the pair stored under that key, nothing when absent;
 * on clear / free: everything stored.
-What remains is the bookkeeping over whole histories.
+What remains is the bookkeeping over whole histories.  Histories may contain inserts whose node allocation fails
+(`Op.insf`): what entered the tree is `entered cmp l ops`, which follows the spec state — such an insert hands its pair
+over only on the replace path (`failed_insert_owns_nothing`; `entered_eq_inserted` for histories without them).
 -/
 namespace PV.Tree
 open Std
@@ -17,53 +19,103 @@ variable {κ ν : Type} {cmp : κ → κ → Ordering}
 /-- over any history, *destroyed so far* together with *still stored* is exactly *inserted so far*
     (as multisets): nothing is destroyed twice, nothing stored was destroyed, nothing is lost -/
 theorem spec_destroyed_perm [TransCmp cmp] (ops : List (Op κ ν)) (l : List (κ × ν)) (hs : SM.Sorted cmp l) :
-    (destroyed (specRun cmp l ops).2 ++ (specRun cmp l ops).1).Perm (inserted ops ++ l) := by
+    (destroyed (specRun cmp l ops).2 ++ (specRun cmp l ops).1).Perm (entered cmp l ops ++ l) := by
   induction ops generalizing l with
-  | nil => simp [specRun, destroyed, inserted]
+  | nil => simp [specRun, destroyed, entered]
   | cons op ops ih =>
     cases op with
     | ins k v =>
       have h := ih (SM.insert cmp l k v) (SM.sorted_insert hs k v)
-      simp only [specRun, specStep, destroyed, inserted, List.append_assoc]
+      simp only [specRun, specStep, destroyed, entered, List.append_assoc]
       refine (h.append_left _).trans ?_
       refine List.perm_append_comm_assoc _ _ _ |>.trans ?_
       refine ((SM.perm_insert hs k v).append_left _).trans ?_
       exact List.perm_middle
+    | insf k v =>
+      by_cases hf : (SM.find cmp l k).isSome = true
+      · -- replace path: exactly the `ins` case
+        have h := ih (SM.insert cmp l k v) (SM.sorted_insert hs k v)
+        simp only [specRun, specStep, destroyed, entered, hf, if_true, List.append_assoc, List.singleton_append]
+        refine (h.append_left _).trans ?_
+        refine List.perm_append_comm_assoc _ _ _ |>.trans ?_
+        refine ((SM.perm_insert hs k v).append_left _).trans ?_
+        exact List.perm_middle
+      · -- new key: nothing entered, nothing destroyed, nothing stored changed
+        have h := ih l hs
+        have hf' : (SM.find cmp l k).isSome = false := by simpa using hf
+        simpa only [specRun, specStep, destroyed, entered, hf', Bool.false_eq_true, if_false, List.nil_append] using h
     | rem k =>
       have h := ih (SM.erase cmp l k) (SM.sorted_erase hs k)
-      simp only [specRun, specStep, destroyed, inserted, List.append_assoc]
+      simp only [specRun, specStep, destroyed, entered, List.append_assoc]
       refine (h.append_left _).trans ?_
       refine List.perm_append_comm_assoc _ _ _ |>.trans ?_
       exact (SM.perm_erase hs k).append_left _
-    | get k => simpa only [specRun, specStep, destroyed, inserted] using ih l hs
-    | each j => simpa only [specRun, specStep, destroyed, inserted] using ih l hs
+    | get k => simpa only [specRun, specStep, destroyed, entered] using ih l hs
+    | each j => simpa only [specRun, specStep, destroyed, entered] using ih l hs
     | clear =>
       have h := ih [] (by simp [SM.Sorted])
-      simp only [specRun, specStep, destroyed, inserted, List.append_assoc]
+      simp only [specRun, specStep, destroyed, entered, List.append_assoc]
       rw [List.append_nil] at h
       exact (h.append_left l).trans List.perm_append_comm
-    | count => simpa only [specRun, specStep, destroyed, inserted] using ih l hs
+    | count => simpa only [specRun, specStep, destroyed, entered] using ih l hs
 
 /-- the same for the three implementations, from the empty tree -/
 theorem bst_destroyed_perm [TransCmp cmp] (ops : List (Op κ ν)) :
-    (destroyed (bstRun cmp (.nil, 0) ops).2 ++ (bstRun cmp (.nil, 0) ops).1.1.toList).Perm (inserted ops) := by
+    (destroyed (bstRun cmp (.nil, 0) ops).2 ++ (bstRun cmp (.nil, 0) ops).1.1.toList).Perm (entered cmp [] ops) := by
   have ⟨h1, h2⟩ := bst_run_refines (cmp := cmp) ops
   rw [h1, h2]
   simpa using spec_destroyed_perm (cmp := cmp) ops [] (by simp [SM.Sorted])
 
 theorem avl_destroyed_perm [TransCmp cmp] (ops : List (Op κ ν)) :
-    ∃ s outs, avlRun cmp (.nil, 0) ops = some (s, outs) ∧ (destroyed outs ++ s.1.toList).Perm (inserted ops) := by
+    ∃ s outs, avlRun cmp (.nil, 0) ops = some (s, outs) ∧ (destroyed outs ++ s.1.toList).Perm (entered cmp [] ops) := by
   obtain ⟨s, h1, h2⟩ := avl_run_refines (cmp := cmp) ops
   refine ⟨s, _, h1, ?_⟩
   rw [h2]
   simpa using spec_destroyed_perm (cmp := cmp) ops [] (by simp [SM.Sorted])
 
 theorem rb_destroyed_perm [TransCmp cmp] (ops : List (Op κ ν)) :
-    ∃ s outs, rbRun cmp (.nil, 0) ops = some (s, outs) ∧ (destroyed outs ++ s.1.toList).Perm (inserted ops) := by
+    ∃ s outs, rbRun cmp (.nil, 0) ops = some (s, outs) ∧ (destroyed outs ++ s.1.toList).Perm (entered cmp [] ops) := by
   obtain ⟨s, h1, h2⟩ := rb_run_refines (cmp := cmp) ops
   refine ⟨s, _, h1, ?_⟩
   rw [h2]
   simpa using spec_destroyed_perm (cmp := cmp) ops [] (by simp [SM.Sorted])
+
+/-- for a history without failing inserts, what entered is simply every pair given to an insert, in call order (the form
+    this invariant had before `Op.insf` existed) -/
+theorem entered_eq_inserted (ops : List (Op κ ν)) (l : List (κ × ν)) (h : ∀ k v, Op.insf k v ∉ ops) :
+    entered cmp l ops = inserted ops := by
+  induction ops generalizing l with
+  | nil => rfl
+  | cons op ops ih =>
+    have ih' := fun l' => ih l' (fun k v hm => h k v (List.mem_cons_of_mem _ hm))
+    cases op with
+    | insf k v => exact absurd List.mem_cons_self (h k v)
+    | ins k v => simp only [entered, inserted, ih']
+    | rem k => simp only [entered, inserted, ih']
+    | get k => simp only [entered, inserted, ih']
+    | each j => simp only [entered, inserted, ih']
+    | clear => simp only [entered, inserted, ih']
+    | count => simp only [entered, inserted, ih']
+
+/-- **an insert that fails for lack of memory takes nothing and destroys nothing**: when no equal key is stored and the
+    node allocation fails, the pair the caller passed does not enter the tree (it is in no later destroy log unless it is
+    inserted again: `entered` does not list it), no stored object is handed to a notifier at that call, and what is stored
+    is unchanged — in the spec and, literally (same tree, same count), in all three variants.  The caller still owns the
+    key and the value it passed. -/
+theorem failed_insert_owns_nothing (k : κ) (v : ν) (l : List (κ × ν)) (ops : List (Op κ ν))
+    (hf : (SM.find cmp l k).isSome = false) :
+    entered cmp l (.insf k v :: ops) = entered cmp l ops ∧
+    destroyed (specRun cmp l (.insf k v :: ops)).2 = destroyed (specRun cmp l ops).2 ∧
+    (specRun cmp l (.insf k v :: ops)).1 = (specRun cmp l ops).1 ∧
+    (∀ s : BT κ ν × Int, (s.1.lookup cmp k).isSome = false → bstStep cmp s (.insf k v) = (s, .ins s.2 [])) ∧
+    (∀ s : AT κ ν × Int, (s.1.toBT.lookup cmp k).isSome = false → avlStep cmp s (.insf k v) = some (s, .ins s.2 [])) ∧
+    (∀ s : RT κ ν × Int, (s.1.toBT.lookup cmp k).isSome = false → rbStep cmp s (.insf k v) = some (s, .ins s.2 [])) := by
+  have e : specStep cmp l (.insf k v) = (l, .ins l.length []) := (failed_insert_is_identity (cmp := cmp) k v).1 l hf
+  have h2 := failed_insert_is_identity (cmp := cmp) k v
+  refine ⟨?_, ?_, ?_, h2.2.1, h2.2.2.1, h2.2.2.2⟩
+  · simp only [entered, hf, Bool.false_eq_true, if_false, List.nil_append, e]
+  · simp only [specRun, e, destroyed, List.nil_append]
+  · simp only [specRun, e]
 
 /-- so when the inserted objects are pairwise distinct, no object is destroyed twice and no
     destroyed object is still stored -/
@@ -76,5 +128,10 @@ theorem exactly_once_of_perm {α : Type} {d s i : List α} (h : (d ++ s).Perm i)
 /-- a history that ends with clear/free leaves nothing stored: everything inserted was destroyed once -/
 theorem spec_clear_destroys_all (l : List (κ × ν)) :
     specStep cmp l .clear = ([], .cleared 0 l) := rfl
+
+/-- non-vacuity: a failing insert of a new key enters nothing; of a stored key it enters its pair and the old pair is destroyed -/
+example : entered (κ := Nat) (ν := Nat) compare [] [.ins 2 20, .insf 1 10, .insf 2 21] = [(2, 20), (2, 21)] ∧
+    destroyed (specRun (κ := Nat) (ν := Nat) compare [] [.ins 2 20, .insf 1 10, .insf 2 21]).2 = [(2, 20)] := by
+  decide
 
 end PV.Tree
